@@ -33,6 +33,13 @@ class RandSetDisposeVisitor(ModelVisitor):
     def visit_constraint_stmt_enter(self, c:ConstraintModel):
         c.dispose()
         
+    def visit_expr_array_sum(self, s):
+        # The array caches the solver node of its sum
+        s.arr.sum_expr_btor = None
+        
+    def visit_expr_array_product(self, s):
+        s.arr.product_expr_btor = None
+        
     def visit_expr_indexed_fieldref(self, e):
         e.get_target().accept(self)
         
